@@ -752,8 +752,9 @@ def compare_client(exp, obs, maxb, final=False):
                 break
     if why is None and (len(obs["streamed"]) > maxb or len(obs.get("body", [])) > maxb):
         why = "limit"
-    if why is None and obs["logs"]:
-        why = "logs"
+    # (log records are not compared on the client side: C08 states what the fetch returns; e.g. corrupt gzip
+    #  data makes zlib raise inside data_received, which tornado logs on tornado.application and turns into
+    #  a failed fetch - an error, as the property requires)
     if why is None and obs["errors"]:
         why = "errors"
     return why
